@@ -188,9 +188,90 @@ fn codec_mode(seed: u64, count: usize, out: &str) {
     let mut trace = Trace::create(out);
     trace.emit(json!({"ev": "Reset", "scn": 0}));
     let signer = key(41);
+    let rt = tokio::runtime::Builder::new_current_thread().build().unwrap();
     for k in 0..count {
-        let which = k % 14;
+        let which = k % 16;
         let res = guarded(|| match which {
+            14 => {
+                // a block through the disk: written by Storage, read back, and reloaded into a pruned copy
+                let mut blk = gen_block(&mut r);
+                blk.creator = signer.public;
+                if k % 32 == 14 {
+                    let mut gt = Transaction::default();
+                    gt.transaction_type = TransactionType::GoldenTicket;
+                    gt.data = bytes::<97>(&mut r).to_vec();
+                    gt.timestamp = 17;
+                    blk.transactions.insert(0, gt);
+                }
+                for t in blk.transactions.iter_mut() {
+                    if t.from.is_empty() { t.from.push(gen_slip(&mut r)); }
+                    t.from[0].public_key = signer.public;
+                    t.sign(&signer.private);
+                }
+                blk.merkle_root = [0; 32];
+                let _ = blk.generate();
+                blk.sign(&signer.private);
+                let _ = blk.generate();
+                let io = saito_verif_harness::sim::SimIo::new();
+                let mut storage = saito_core::core::io::storage::Storage::new(Box::new(io.clone()));
+                let name = rt.block_on(storage.write_block_to_disk(&blk));
+                let file = io.files().iter().find(|(k, _)| k.ends_with(&name) || name.ends_with(k.as_str())).map(|(_, v)| v.clone()).unwrap_or_default();
+                let loaded = rt.block_on(storage.load_block_from_disk(&name));
+                let mut pruned = blk.clone();
+                rt.block_on(pruned.downgrade_block_to_block_type(BlockType::Pruned, false));
+                let pruned_ok = pruned.transactions.is_empty();
+                let up = rt.block_on(pruned.upgrade_block_to_block_type(BlockType::Full, &storage, false));
+                let tx_same = pruned.transactions.len() == blk.transactions.len()
+                    && pruned.transactions.iter().zip(blk.transactions.iter()).all(|(a, b)| {
+                        a.hash_for_signature == b.hash_for_signature && a.signature == b.signature
+                            && a.total_fees == b.total_fees && a.total_work_for_me == b.total_work_for_me
+                            && a.from.iter().map(|s| s.get_utxoset_key()).collect::<Vec<_>>() == b.from.iter().map(|s| s.get_utxoset_key()).collect::<Vec<_>>()
+                            && a.to.iter().map(|s| s.get_utxoset_key()).collect::<Vec<_>>() == b.to.iter().map(|s| s.get_utxoset_key()).collect::<Vec<_>>()
+                    });
+                let derived_same = up && pruned_ok && tx_same && pruned.hash == blk.hash && pruned.has_golden_ticket == blk.has_golden_ticket
+                    && pruned.has_fee_transaction == blk.has_fee_transaction && pruned.has_issuance_transaction == blk.has_issuance_transaction
+                    && pruned.total_work == blk.total_work && pruned.total_fees == blk.total_fees
+                    && pruned.serialize_for_net(BlockType::Full) == blk.serialize_for_net(BlockType::Full);
+                let mut flags = json!({"reenc": false, "hash_same": false, "derived_same": derived_same});
+                if let Ok(lb) = loaded.as_ref() {
+                    flags["reenc"] = json!(lb.serialize_for_net(BlockType::Full) == file);
+                    let mut l2 = Block::deserialize_from_net(&file).unwrap_or_else(|_| Block::new());
+                    let _ = l2.generate();
+                    flags["hash_same"] = json!(l2.hash == blk.hash && (lb.hash == blk.hash || lb.hash == [0; 32]));
+                }
+                emit_codec(&mut trace, k, "block", block_tree(&blk, "full"), hx(&file),
+                    loaded.as_ref().map(|x| block_tree(x, "full")).unwrap_or(json!("ERR")), file.len() as i64, flags);
+            }
+            15 => {
+                // a lite block over the wire: same header, same hash, signature still the creator's
+                let mut blk = gen_block(&mut r);
+                blk.creator = signer.public;
+                for t in blk.transactions.iter_mut() {
+                    if t.from.is_empty() { t.from.push(gen_slip(&mut r)); }
+                    // a full block carries no placeholders
+                    if t.transaction_type == TransactionType::SPV { t.transaction_type = TransactionType::Normal; }
+                    t.txs_replacements = 1;
+                    t.sign(&signer.private);
+                }
+                blk.merkle_root = [0; 32];
+                let _ = blk.generate();
+                blk.sign(&signer.private);
+                let _ = blk.generate();
+                let keys = if blk.transactions.is_empty() || k % 3 == 0 { vec![bytes::<33>(&mut r)] } else { vec![blk.transactions[0].from[0].public_key] };
+                let lite = blk.generate_lite_block(keys);
+                let b = lite.serialize_for_net(BlockType::Full);
+                let d = Block::deserialize_from_net(&b);
+                let mut flags = json!({"reenc": false, "hash_same": false, "sig_same": false, "header_same": false});
+                if let Ok(db) = d.as_ref() {
+                    let mut db2 = Block::deserialize_from_net(&b).unwrap();
+                    let _ = db2.generate();
+                    flags = json!({"reenc": db.serialize_for_net(BlockType::Full) == b, "hash_same": db2.hash == blk.hash,
+                                   "sig_same": verify_signature(&db2.pre_hash, &db2.signature, &db2.creator),
+                                   "header_same": db2.serialize_for_net(BlockType::Header) == blk.serialize_for_net(BlockType::Header)});
+                }
+                emit_codec(&mut trace, k, "block", block_tree(&lite, "full"), hx(&b),
+                    d.as_ref().map(|x| block_tree(x, "full")).unwrap_or(json!("ERR")), b.len() as i64, flags);
+            }
             0 => {
                 let s = gen_slip(&mut r);
                 let b = s.serialize_for_net();
